@@ -1004,6 +1004,9 @@ class PX:
             return ('tuple', tuple(self.abstract(st, x, key + (i,), depth + 1) for i, x in enumerate(v[1])))
         if k in ('zst',) or v == UNIT:
             return v
+        if k == 'closure' and depth < 2:
+            # calling an FnMut closure may change what it captured by value, never where its captured references point
+            return ('closure', v[1], tuple(x if (isinstance(x, tuple) and x and x[0] in ('ref', 'param')) else self.abstract(st, x, key + (i,), depth + 1) for i, x in enumerate(v[2])))
         if k in ('peekres', 'nextres') and (v[1], v[2]) in getattr(self, '_remap', {}):
             # the token cell of a parser loop: the element looked at (peek) / just taken (next) keeps its identity across the cut
             which = self._remap[(v[1], v[2])][2]
@@ -1095,6 +1098,8 @@ class PX:
             return ('adt', a[1], a[2], tuple(self.instantiate(st, x, carried) for x in a[3]))
         if isinstance(a, tuple) and a and a[0] == 'tuple':
             return ('tuple', tuple(self.instantiate(st, x, carried) for x in a[1]))
+        if isinstance(a, tuple) and a and a[0] == 'closure':
+            return ('closure', a[1], tuple(self.instantiate(st, x, carried) for x in a[2]))
         return a
 
     # ---------------------------------------------------------------- calls
